@@ -10,7 +10,7 @@ from props import toycipher, toyecc
 from props import bf3common as B
 from props import bec2common as C
 
-GEN_DEPS = ("Consts.v", "gen_consts", "Crc.v", "gen_crc")
+GEN_DEPS = ("Consts.v", "gen_consts", "Crc.v", "gen_crc", "Pad.v", "gen_pad", "AesFrame.v", "gen_aesframe")
 MODEL_TARGETS = ["Model/Bec2.vo", "Model/Bec2Eq.vo", "Model/Bf3Eq.vo", "Model/Cbc.vo", "Model/Aes.vo"]
 IMPORTS = C.IMPORTS
 
